@@ -66,11 +66,10 @@ func (h *Hub) mapShipMessageExchangeState(state model.ShipMessageExchangeState, 
 	return connState
 }
 
-// return if the handshake is completed, aborted or failed
-func isHandshakeEnded(state model.ShipMessageExchangeState) bool {
+// return if the handshake is aborted or failed, the connection closes itself then
+func isHandshakeFailed(state model.ShipMessageExchangeState) bool {
 	switch state {
-	case model.SmeStateComplete,
-		model.SmeHelloStateAbort, model.SmeHelloStateAbortDone,
+	case model.SmeHelloStateAbort, model.SmeHelloStateAbortDone,
 		model.SmeHelloStateRemoteAbortDone, model.SmeHelloStateRejected,
 		model.SmeStateError:
 		return true
@@ -184,8 +183,9 @@ func (h *Hub) CancelPairingWithSKI(ski string) {
 		existingC.AbortPendingHandshake()
 
 		// a handshake that is in a phase where it can not be aborted with a hello message
-		// must not complete later on, so close the connection
-		if state, _ := existingC.ShipHandshakeState(); !isHandshakeEnded(state) {
+		// must not complete later on, and a completed connection to a service that is
+		// no longer trusted must not stay, so close the connection
+		if state, _ := existingC.ShipHandshakeState(); !isHandshakeFailed(state) {
 			existingC.CloseConnection(false, 4452, "Node rejected by application")
 		}
 	}
